@@ -75,12 +75,23 @@ ipc_recv = recv_fn("recv", "RecvKind::Blocking", ("final(o).last_ipc_err == Some
 ipc_try_recv = recv_fn("try_recv", "RecvKind::Nonblocking", ("final(o).last_try_err == Some(e)", "e matches TryRecvError::IpcError(IpcError::Bincode(_))"), ["C10", "C03"])
 ipc_try_recv_timeout = recv_fn("try_recv_timeout", "RecvKind::Timeout(duration)", ("final(o).last_try_err == Some(e)", "e matches TryRecvError::IpcError(IpcError::Bincode(_))"), ["C10", "C03"])
 
+bytes_send = Fn(F, ["impl IpcBytesSender", "send"], ret="r", extra_params=TO,
+    ensures=[
+        Clause("ipc.IpcBytesSender.send/ensures.one_platform_send_of_exactly_these_bytes_without_attachments",
+               "final(o).sends == old(o).sends.push((self.os_sender.xid, data@, 0nat, 0nat))", ["C01", "C02", "C09"]),
+        Clause("ipc.IpcBytesSender.send/ensures.fails_iff_the_platform_send_failed", "(r is Ok) == final(o).last_send_ok", ["C09", "C01"]),
+        Clause("ipc.IpcBytesSender.send/ensures.frame", "same_oneshot(*old(o), *final(o)) && final(o).recvs == old(o).recvs && final(o).decodes == old(o).decodes"),
+    ],
+    rules=[AppendArg("B75", r"\.send\(", OG, "platform send (unit U2) as a stub that logs what it was handed", min_count=1),
+           Rule("D31", r"\.map_err\(io::Error::from\)", ".map_err(|e: UnixError| -> (x: io::Error) { unix_error_to_io(e) })", "function item used as a function value -> closure calling the conversion stub")],
+    safety_props=["C01", "C09"])
+
 UNIT = Unit(
     name="u10_oneshot",
     prelude=["units/common.rs", "units/u10_oneshot.rs"],
     groups=[("impl OpaqueIpcMessage", [msg_new]), ("impl<T> IpcOneShotServer<T>", [server_new, accept]), ("impl<T> IpcSender<T>", [connect]),
-            ("impl<T> IpcReceiver<T>", [ipc_recv, ipc_try_recv, ipc_try_recv_timeout])],
-    props=["C08", "C01", "C03", "C04", "C05", "C10"],
+            ("impl<T> IpcReceiver<T>", [ipc_recv, ipc_try_recv, ipc_try_recv_timeout]), ("impl IpcBytesSender", [bytes_send])],
+    props=["C08", "C01", "C02", "C03", "C04", "C05", "C09", "C10"],
     kernel_clauses=[
         "the platform one-shot server, accept and connect behave as specified in unit U9; OpaqueIpcMessage::to as in unit U7",
         "`?`'s From<UnixError> conversions (unit U4b for the error kinds) are folded into the platform stubs",
